@@ -156,7 +156,7 @@ pub fn out_matches(o: &Out, e: &Exp, scale: f64) -> bool {
 // value alphabets
 
 pub const FILLS: [&str; 4] = ["mixed-sign", "all-negative", "all-positive", "small-with-ties"];
-const SEED_SCALE: [f64; 8] = [1.0, 3.0, 0.5, 7.0, 0.25, 5.0, 2.0, 1.5];
+pub const SEED_SCALE: [f64; 8] = [1.0, 3.0, 0.5, 7.0, 0.25, 5.0, 2.0, 1.5];
 
 /// Index-coded data: every entry of a matrix is distinct and identifies its (row, column), so that
 /// any row-/column-major mix-up, swapped dimension or wrong operand changes the result. `variant`
@@ -462,6 +462,10 @@ pub fn dot_class(a: &M, b: &M) -> &'static str {
 pub fn input_class(op: &Op, a: &M, b: Option<&M>, panicked: bool) -> String {
     match (op.k, b) {
         (K::Max | K::Min, _) => sign_class(&a.v).to_string(),
+        // softmax is defined with the shift by max x; a shift by max |x| is the same function only
+        // as long as exp(max x - max|x|) stays in the normal range of f64 (argument above about -708):
+        // below it the exponentials are denormal (precision lost) or 0 (result 0/0 = NaN)
+        (K::SoftmaxMut, _) if a.v.iter().cloned().fold(f64::NEG_INFINITY, f64::max) - a.max_abs() < -708.0 => "max-abs-shift-underflows".to_string(),
         (K::Dot, Some(b)) => dot_class(a, b).to_string(),
         (K::EwMut | K::CopyFrom | K::ApproxEq | K::EqOp | K::MaxDiff, Some(b)) => {
             let co = (a.r == b.r || a.r == 1 || b.r == 1) && (a.c == b.c || a.c == 1 || b.c == 1);
